@@ -314,7 +314,11 @@ def _reads_after_unbind(fn):
             continue
         end = h.end_lineno
         stores = sorted(n.lineno for n in ast.walk(fn) if isinstance(n, ast.Name) and n.id == h.name and isinstance(n.ctx, ast.Store) and n.lineno > end)
+        # another handler binding the same name re-binds it for its own body
+        inside_other = {id(x) for h2 in ast.walk(fn) if isinstance(h2, ast.ExceptHandler) and h2 is not h and h2.name == h.name for x in ast.walk(h2)}
         for n in ast.walk(fn):
+            if id(n) in inside_other:
+                continue
             if isinstance(n, ast.Name) and n.id == h.name and isinstance(n.ctx, ast.Load) and n.lineno > end and not any(s_ <= n.lineno for s_ in stores):
                 out.append((h, n))
     return out
